@@ -16,9 +16,9 @@ cp -a /verif/replays/known $R/verif/replays/
 sed -i "s#\"/repo/#\"$R/repo/#g" $R/verif/sim/Cargo.toml
 OUT=$R/REGRESSION.txt; : > $OUT
 IDS="$@"
-[ -z "$IDS" ] && IDS=$(ls /verif/seeded | grep -E '^C[0-9]+-[a-z]$')
+[ -z "$IDS" ] && IDS=$(ls ${SEEDED_DIR:-/verif/seeded} | grep -E "^C[0-9]+-[a-z0-9]+$")
 for ID in $IDS; do
-  d=/verif/seeded/$ID
+  d=${SEEDED_DIR:-/verif/seeded}/$ID
   [ -f $d/patch.diff ] || continue
   PROP=$(python3 -c "import json;print(json.load(open('$d/meta.json'))['property'])")
   if ! git -C $R/repo apply $d/patch.diff 2>/dev/null; then echo "$ID $PROP $TIER PATCH-DOES-NOT-APPLY" | tee -a $OUT; continue; fi
@@ -30,5 +30,5 @@ for ID in $IDS; do
   echo "$ID $PROP $TIER $V $SIGS" | tee -a $OUT
   rm -f $R/verif/replays/$PROP-*.json
 done
-cp $OUT /verif/seeded/REGRESSION.txt
+cp $OUT ${REGRESSION_OUT:-/verif/seeded/REGRESSION.txt}
 git -C /repo worktree remove --force $R/repo; rm -rf $R/verif
